@@ -16,7 +16,7 @@ use std::mem::replace;
 use std::sync::Arc;
 use tokio::sync::mpsc::error::SendError;
 use tokio::sync::{mpsc, oneshot, Mutex};
-use tokio::time::timeout;
+use tokio::time::{timeout, Instant};
 
 pub mod acceptor;
 pub mod initiator;
@@ -361,22 +361,29 @@ async fn receive_ack(
     mut accepted: Accepted,
     mut ack_recv: oneshot::Receiver<IncomingRequest>,
 ) -> Result<IncomingRequest> {
+    // The 2xx is retransmitted with an interval that starts at T1 and doubles until it reaches T2,
+    // after 64*T1 without ACK the session is given up (RFC 3261 13.3.1.4)
+    let abandon = Instant::now() + T1 * 64;
     let mut delta = T1;
 
-    for _ in 1..10 {
-        match timeout(delta, &mut ack_recv).await {
+    loop {
+        let wait = delta.min(abandon.saturating_duration_since(Instant::now()));
+
+        match timeout(wait, &mut ack_recv).await {
             Ok(res) => {
                 // Unwrap should be safe as there should never be
                 // multiple invite transactions
                 return Ok(res.unwrap());
             }
             Err(_) => {
+                if Instant::now() >= abandon {
+                    return Err(Error::RequestTimedOut);
+                }
+
                 // retransmit on timeout
                 accepted.retransmit().await?;
-                delta = (T1 * 2).min(T2);
+                delta = (delta * 2).min(T2);
             }
         }
     }
-
-    Err(Error::RequestTimedOut)
 }
